@@ -50,6 +50,8 @@ struct Case
   bool customDrift = false;                 // drift given as an explicit list of monomials (Model::addDrift)
   std::vector<std::vector<int>> customPw;   // powers of the monomials (first one is the constant)
   bool fUndef = false;                      // some external-drift values undefined at data samples
+  bool perCell = false;                     // block kriging with one block size per target (ELoc::BLEX, krigcell)
+  std::vector<std::vector<double>> blex;    // [target][ndim]
   int tfUndef = -1;                         // target whose external drift is undefined (-1: none)
   double tfUndefDraw = 2.;                  // (drawn position of that target in [0,1), resolved once the targets exist)
   int neighKind = N_UNIQUE, targetKind = T_POINTS;
@@ -86,7 +88,7 @@ struct Case
   {
     std::string s = vh::fmt("ndim=%d:nvar=%d:het=%d:drift=%d%s:nfex=%d%s:verr=%d:neigh=%s:tgt=%s:lay=%d:cov=", ndim, nvar,
                             hetero, driftOrder, customDrift ? "c" : "", nfex, (std::string(fUndef ? "u" : "") + (tfUndefDraw < 1. ? "t" : "")).c_str(), (int)verr, neighKind == N_UNIQUE ? "unique" : "moving",
-                            targetKind == T_POINTS ? "points" : (targetKind == T_GRID ? "grid" : "block"), layout);
+                            targetKind == T_POINTS ? "points" : (targetKind == T_GRID ? "grid" : (perCell ? "cellblock" : "block")), layout);
     for (auto& st : structs) s += st.name.substr(0, 4) + "+";
     return s;
   }
@@ -400,6 +402,15 @@ inline Case draw(Rng& r, bool thorough, const Options& opt = Options())
     {
       c.ndiscs.resize(c.ndim);
       for (auto& v : c.ndiscs) v = r.irange(1, c.ndim == 3 ? 3 : 4);
+      if (r.coin(0.3))
+      {
+        c.perCell = true;
+        int tot2 = 1;
+        for (int v : c.gnx) tot2 *= v;
+        c.blex.assign(tot2, std::vector<double>(c.ndim));
+        for (auto& b : c.blex)
+          for (int kk = 0; kk < c.ndim; kk++) b[kk] = c.gdx[kk] * r.uni(0.3, 2.);
+      }
     }
   }
   return c;
@@ -471,6 +482,13 @@ inline std::unique_ptr<Db> makeTargetDb(Case& c)
       for (int k = 0; k < c.ndim; k++) c.tx[i][k] = g->getCoordinate(i, k);
   }
   int m = (int)c.tx.size();
+  if (c.perCell)
+    for (int kk = 0; kk < c.ndim; kk++)
+    {
+      VectorDouble col(m);
+      for (int i = 0; i < m; i++) col[i] = c.blex[i][kk];
+      db->addColumns(col, vh::fmt("blex%d", kk + 1), ELoc::BLEX, kk);
+    }
   if (c.nfex > 0)
   {
     if (c.tf.empty())
@@ -552,6 +570,73 @@ inline double covErrOf(const Case& c)
   }
   return c0 * (4. + 2. * (xmax + c.L) / rmin);
 }
+
+// compact JSON description of a case (evidence sample / replay reading aid); the case itself is reproducible from
+// (seed, index)
+inline std::string describe(const Case& c)
+{
+  std::string o = "{\"structs\":[";
+  for (size_t i = 0; i < c.structs.size(); i++)
+  {
+    const Struct& s = c.structs[i];
+    if (i) o += ",";
+    o += "{\"type\":" + vh::jstr(s.name) + ",\"param\":" + vh::jnum(s.param) + ",\"ranges\":" + vh::jvec(s.ranges) +
+         ",\"angles\":" + vh::jvec(s.angles) + ",\"sill\":" + vh::jvec(s.sill) + "}";
+  }
+  o += "],\"means\":" + vh::jvec(c.means) + ",\"L\":" + vh::jnum(c.L) + ",\"origin\":" + vh::jvec(c.org);
+  if (c.neighKind == N_MOVING)
+    o += ",\"moving\":{\"nmaxi\":" + std::to_string(c.nmaxi) + ",\"nmini\":" + std::to_string(c.nmini) + ",\"nsect\":" +
+         std::to_string(c.nsect) + ",\"radius\":" + vh::jnum(c.radius) + ",\"coeffs\":" + vh::jvec(c.ncoeffs) + ",\"angles\":" +
+         vh::jvec(c.nangles) + "}";
+  if (c.targetKind != T_POINTS)
+    o += ",\"grid\":{\"nx\":" + vh::jvec(c.gnx) + ",\"dx\":" + vh::jvec(c.gdx) + ",\"x0\":" + vh::jvec(c.gx0) + ",\"angles\":" +
+         vh::jvec(c.gang) + ",\"ndiscs\":" + vh::jvec(c.ndiscs) + "}";
+  if (c.customDrift)
+  {
+    o += ",\"monomials\":[";
+    for (size_t i = 0; i < c.customPw.size(); i++) o += (i ? "," : "") + vh::jvec(c.customPw[i]);
+    o += "]";
+  }
+  o += ",\"x\":[";
+  for (int i = 0; i < c.data.n() && i < 4; i++) o += (i ? "," : "") + vh::jvec(c.data.x[i]);
+  o += "],\"z\":[";
+  for (int i = 0; i < c.data.n() && i < 4; i++) o += (i ? "," : "") + vh::jvec(c.data.z[i]);
+  o += "]}";
+  return o;
+}
+
+// Reference description of target 'it' (centre, external drift, block discretisation)
+inline refk::Target refTarget(const Case& k, int it, const DbGrid* grid)
+{
+  refk::Target t;
+  t.x = k.tx[it];
+  if (k.nfex > 0) t.f = k.tf[it];
+  if (k.targetKind == T_BLOCK)
+  {
+    // first discretisation: regular, centred sub-cells of the grid mesh, built here from the mesh sizes
+    int ndim = k.ndim, tot = 1;
+    for (int v : k.ndiscs) tot *= v;
+    for (int i = 0; i < tot; i++)
+    {
+      std::vector<double> off(ndim);
+      int rest = i;
+      for (int d = 0; d < ndim; d++)
+      {
+        int j  = rest % k.ndiscs[d];
+        rest  /= k.ndiscs[d];
+        off[d] = (k.perCell ? k.blex[it][d] : k.gdx[d]) * ((j + 0.5) / k.ndiscs[d] - 0.5);
+      }
+      t.disc1.push_back(off);
+    }
+    // second discretisation (block variance only): the library randomises it inside each sub-cell with its own
+    // generator (DbGrid::getDiscretizedBlock(..., flagRandom = true, seed = 1234546), see KrigingSystem::_blockDiscretize);
+    // the points are taken from that public geometric helper, the covariances are still evaluated here.
+    VectorVectorDouble d2 = grid->getDiscretizedBlock(VectorInt(k.ndiscs.begin(), k.ndiscs.end()), it, k.perCell, true, 1234546);
+    for (int i = 0; i < (int)d2.size(); i++) t.disc2.push_back(d2[i].getVector());
+  }
+  return t;
+}
+
 
 inline void setSpace(int ndim) { defineDefaultSpace(ESpaceType::RN, ndim); }
 
